@@ -23,14 +23,6 @@ Definition errkind_eqb (a b : errkind) : bool :=
   | _, _ => false
   end.
 
-Definition field_eqb (a b : field) : bool :=
-  String.eqb (fst a) (fst b) && String.eqb (snd a) (snd b).
-Definition fields_eqb : list field -> list field -> bool := list_eqb field_eqb.
-
-Definition q_off (q : select_stmt) : option nat :=
-  if sel_offset_active q then Some (Z.to_nat (sel_offset q)) else None.
-Definition q_lim (q : select_stmt) : option nat :=
-  if sel_limit_active q then Some (Z.to_nat (sel_limit q)) else None.
 
 (* Model vs. Go. Without ORDER BY the rows must be identical, in order (join and group
    output order are deterministic in Go). With ORDER BY, Go's unstable sort may order ties
@@ -45,7 +37,7 @@ Definition mm_select (c : sel_case) : bool :=
        match sel_from q with
        | tr :: _ =>
            match select_core q d tr with
-           | Ok (_, rows, (k :: ks) as keys) => check_window keys (q_off q) (q_lim q) rows r
+           | Ok (_, rows, (k :: ks) as keys) => check_window keys (q_offset q) (q_limit q) rows r
            | _ => false
            end
        | [] => false
@@ -55,11 +47,136 @@ Definition mm_select (c : sel_case) : bool :=
   | _, _ => false
   end.
 
-(* placeholders, replaced below by the real oracles *)
-Definition sm_c05 (c : sel_case) : bool := true.
-Definition wt_c05 (c : sel_case) : bool := true.
-Definition sm_c06 (c : sel_case) : bool := true.
-Definition wt_c06 (c : sel_case) : bool := true.
-Definition sm_c07 (c : sel_case) : bool := true.
-Definition wt_c07 (c : sel_case) : bool := true.
-Definition sm_c18 (c : sel_case) : bool := true.
+
+(* ---------------------------------------------------------------------------------- *)
+(* C05: a well-typed single-table query must return rows the verified checker accepts   *)
+
+Definition wt_c05 (c : sel_case) : bool := let '(d, q, _) := c in well_typed q d.
+
+Definition sm_c05 (c : sel_case) : bool :=
+  let '(d, q, g) := c in
+  if well_typed q d then
+    match g with
+    | GOk f r => check_select q d (f, r)
+    | _ => false
+    end
+  else true.
+
+(* ---------------------------------------------------------------------------------- *)
+(* C06: join queries (no aggregates, no LIMIT/OFFSET): rows as a multiset               *)
+
+Definition vexpr_refs (x : vexpr) : list colref := match x with XCol c => [c] | XLit _ => [] end.
+Fixpoint expr_refs (e : expr) : list colref :=
+  match e with
+  | EVal v => vexpr_refs v
+  | EPred l _ r => vexpr_refs l ++ vexpr_refs r
+  | EAnd (l, _, r) rhs => vexpr_refs l ++ vexpr_refs r ++ expr_refs rhs
+  | EOr l r => expr_refs l ++ expr_refs r
+  end.
+
+(* a reference the engine has to reject: no field answers to it (unknown column, or a table
+   addressed by its name although it has an alias), or it is unqualified and several fields
+   answer to it. (A QUALIFIED reference matching several fields - the same table joined to
+   itself without aliases - is outside C06's statement; Go silently takes the first.) *)
+Definition must_reject (c : colref) (fs : list field) : bool :=
+  match positions_from (ref_names c) fs 0 with
+  | [] => true
+  | [_] => false
+  | _ => String.eqb (cr_qual c) ""
+  end.
+
+(* some ON condition that is evaluated on at least one pair of rows mentions such a
+   reference: the query must not succeed *)
+Fixpoint unresolved_evaluated (d : db) (t : tableref) : bool :=
+  match t with
+  | TRName _ _ => false
+  | TRJoin l _ r cond =>
+      unresolved_evaluated d l || unresolved_evaluated d r ||
+      match join_sem d l, join_sem d r with
+      | Some (lf, (_ :: _)), Some (rf, (_ :: _)) =>
+          existsb (fun c => must_reject c (lf ++ rf)) (expr_refs cond)
+      | _, _ => false
+      end
+  end.
+
+Definition plain_query (q : select_stmt) : bool :=
+  no_aggregate q && negb (sel_limit_active q) && negb (sel_offset_active q).
+
+(* header, projected rows (multiset), sort keys of a join query *)
+Definition sem_joined (q : select_stmt) (d : db) : option (list field * list row * sortkeys) :=
+  match sel_from q with
+  | [j] =>
+      obind (join_sem d j) (fun '(fs, rows) =>
+      obind (sem_filter (sel_where q) fs rows) (fun kept =>
+      obind (sem_project (sel_list q) fs kept) (fun base =>
+      obind (out_header (sel_list q) fs) (fun hdr =>
+      obind (sem_sortkeys (sel_sort q) hdr) (fun keys => Some (hdr, base, keys))))))
+  | _ => None
+  end.
+
+Definition wt_c06 (c : sel_case) : bool :=
+  let '(d, q, _) := c in plain_query q && is_some (sem_joined q d).
+
+Definition sm_c06 (c : sel_case) : bool :=
+  let '(d, q, g) := c in
+  match sel_from q with
+  | [j] =>
+      match join_sem d j with
+      | Some _ =>
+          if plain_query q then
+            match sem_joined q d with
+            | Some (hdr, base, keys) =>
+                match g with
+                | GOk f r => fields_eqb f hdr && perm_b r base && sortedb keys r
+                | _ => false
+                end
+            | None => true
+            end
+          else true
+      | None =>
+          if unresolved_evaluated d j then match g with GOk _ _ => false | _ => true end else true
+      end
+  | _ => true
+  end.
+
+(* ---------------------------------------------------------------------------------- *)
+(* C07: aggregate queries (no LIMIT/OFFSET): rows as a multiset, sorted if ORDER BY     *)
+
+Definition agg_query_typed (q : select_stmt) (d : db) : bool :=
+  negb (sel_limit_active q) && negb (sel_offset_active q) &&
+  match agg_input q d with
+  | Some (fs, base) => agg_typed (sel_list q) (sel_group q) fs base
+  | None => false
+  end.
+
+Definition wt_c07 (c : sel_case) : bool := let '(d, q, _) := c in agg_query_typed q d.
+
+Definition sm_c07_with (chk : list derivedcol -> list colref -> list field -> list row -> list row -> bool)
+           (c : sel_case) : bool :=
+  let '(d, q, g) := c in
+  if agg_query_typed q d then
+    match agg_input q d, g with
+    | Some (fs, base), GOk f r =>
+        chk (sel_list q) (sel_group q) fs base r &&
+        match out_header (sel_list q) fs with
+        | Some hdr =>
+            fields_eqb f hdr &&
+            match sem_sortkeys (sel_sort q) hdr with
+            | Some keys => sortedb keys r
+            | None => true
+            end
+        | None => true
+        end
+    | _, _ => false
+    end
+  else true.
+
+Definition sm_c07 : sel_case -> bool := sm_c07_with check_agg.
+Definition sm_c07_lenient : sel_case -> bool := sm_c07_with check_agg_lenient.
+
+(* ---------------------------------------------------------------------------------- *)
+(* C18 (SELECT part): whatever the statement and the data, Go returns rows or an error   *)
+
+Definition sm_c18 (c : sel_case) : bool :=
+  let '(_, _, g) := c in
+  match g with GPanic | GTimeout => false | _ => true end.
